@@ -36,14 +36,14 @@ def generate(ctx):
     rng = random.Random(ctx['seed'] * 15487469 + 11)
     quick = ctx['tier'] == 'quick'
     limit = coregen.circular_limit(ctx['repo'])
-    cases = dup_directed() + coregen.deep_cases(limit, model_too=() if quick else ('cycle1', 'chain:limit+2')) + coregen.wide_cases(limit)
+    cases = dup_directed() + coregen.deep_cases(limit, model_too=() if (quick or ctx.get('seed_index', 0)) else ('cycle1', 'chain:limit+2')) + coregen.wide_cases(limit)
     # every allocation request of a duplicate refused in turn: the source must dump identically afterwards and the ledger must be restored
     # (handles: 0 obj, 1 arr, 2 num, 3 str, 4 true, 5 sref, 6 obj, 7 num, 8 aref, 9 raw — see dup_directed)
     build = dup_directed()[0].line.split(' ', 3)[3].rsplit(';dup:0:1', 1)[0] + ';str:x6373;addcs:0:x63736b:10;sref:x7273;addcs:0:x72736b:11'   # + string and string reference under constant keys
     nb = len(build.split(';'))
     for k in range(1, 30):
         cases.append(Case('hist DX @%d.%d %s;dup:0:1;size:0;each:1;geto:0:x7372' % (nb, k, build), {'tags': ['dup-under-failure', 'k=%d' % k]}))
-    n = 300 if quick else 5000
+    n = 300 if quick else 1200
     for i in range(n):
         nops = 40 if quick else rng.choice([20, 40, 80, 160])
         cases.append(coregen.history_case(rng, 'dup', nops, 'DX'))
